@@ -8,7 +8,7 @@ namespace Sugar
 abbrev Bytes := List UInt8
 
 /-- ASCII string literal to bytes (model source uses ASCII literals only). -/
-def b (s : String) : Bytes := s.toUTF8.toList
+def b (s : String) : Bytes := s.toList.map fun c => c.toNat.toUInt8
 
 def isDigit (c : UInt8) : Bool := 48 ≤ c && c ≤ 57
 
